@@ -23,6 +23,13 @@ replay: each history is executed on
             (RenderTable also of the step group).  The step / initial holders are empty (known world,
             interrupted world), hold one series (MC_StepStore) or hold the real sweep trace of the solved
             SIM model (TraceStep = 2, thorough tier).  All three holders are snapshotted.
+          * BOUNDARY of the time-zero suppression (instances MC_Results_edge*): stored series of 3, 2 and 1
+            points (step group after one traced sweep), cutoff 0 given as argument and as
+            Model.TimeSeriesCutoff, suppression on: the truncated result has exactly one point, the k=0 point,
+            and the retrieval must return [].  Thorough tier also on a solver that has only been initialised
+            (ParseString; SetInitialConditions: every endogenous series has exactly its k=0 point, the
+            exogenous one MaxTime+1) - world "initialised".  The evidence counts these retrievals
+            (suppressed_one_point_gets); none executed = machinery failure.
           * a small BaseSolver subclass (the object of test_base_solver.py) for BaseCsv
         after every call a deep snapshot of the three holders, of BaseSolver.VariableList and of
         the BaseSolver's series attributes is taken and compared with the previous one; lists returned
@@ -48,6 +55,7 @@ Values are shipped to TLC as small ints: the known series are small ints already
 solved model are coded 100 + rank among the distinct values of the tracked series (injective), the
 driver's own values are the ints 99 (sentinel appended to returned lists) and 7 (Extend), anything else is -1.
 """
+import concurrent.futures
 import json
 import random
 
@@ -69,6 +77,17 @@ INTERRUPTED_NAMES = {'t': 'S__G', 'x': 'S__X', 'k': 'k', 'tt': 't'}
 INTERRUPTED_ABSENT = {'q': 'S_G'}
 INTERRUPTED_G = [1., 2., 4., 3., 5.]                                  # S__X = 1/(S__G - 3) fails at step 3
 MAIN_FINALLY = 'main-finally'
+# solver after SetInitialConditions only: x, LAG_x, t have one point, the exogenous g and k have five
+INITIALISED_EQ = """
+ x = 0.5*LAG_x + g
+ LAG_x = x(k-1)
+ x(0) = 2.
+ exogenous
+ g = [1., 2., 3., 4., 5.]
+ MaxTime = 4
+"""
+INITIALISED_NAMES = {'t': 'g', 'x': 'x', 'lag': 'LAG_x', 'k': 'k', 'tt': 't'}
+INITIALISED_ABSENT = {'q': 'x_'}
 
 
 # --------------------------------------------------------------------------------------
@@ -113,6 +132,24 @@ class World(object):
                 raise core.MachineryError('TraceStep left the step group of the solved model empty')
         elif kind == 'interrupted':
             self._build_interrupted()
+        elif kind == 'initialised':
+            from sfc_models.equation_solver import EquationSolver
+            es = EquationSolver()
+            es.RunEquationReduction = False
+            es.ParseString(INITIALISED_EQ)
+            es.ExtractVariableList()
+            es.SetInitialConditions()
+            self.model = Model()
+            self.model.EquationSolver = es
+            self.names = {'main': dict(INITIALISED_NAMES), 'step': {}, 'initial': {}}
+            self.absent = dict(INITIALISED_ABSENT)
+            lens = {n: len(v) for n, v in es.TimeSeries.items()}
+            if set(lens) != set(INITIALISED_NAMES.values()) or lens['x'] != 1 or lens['g'] != 5:
+                raise core.MachineryError('initialised solver has an unexpected store shape %r' % (lens,))
+            vals = set()
+            for v in es.TimeSeries.values():
+                vals.update(v)
+            self.table = {v: 100 + i for i, v in enumerate(sorted(vals))}
         else:
             raise core.MachineryError('unknown world ' + repr(kind))
         if self.pristine is None:
@@ -361,9 +398,13 @@ def execute(beh, kind='known'):
             if ev['stored'] and call['name'] not in state['snap'][grp]:
                 raise core.MachineryError('behaviour asks for the stored but untracked series %s:%s' % (grp, real))
             kw = {} if grp == 'main' else {'group_of_series': grp}
+            n_pre = len(holder[real]) if ev['stored'] else 0
             cut_eff = m.TimeSeriesCutoff if call['c'] == NOCUT else call['c']
             ev['cut_eff'] = NOCUT if cut_eff is None else cut_eff
             ev['sup'] = bool(m.TimeSeriesSupressTimeZero)
+            # census only: suppression on and the (truncated) series has exactly its k=0 point
+            ev['one_point'] = bool(ev['sup'] and ev['stored'] and
+                                   (n_pre if cut_eff is None else min(n_pre, cut_eff + 1)) == 1)
             val = None
             try:
                 if call['c'] == NOCUT:
@@ -511,19 +552,25 @@ def parse_verdict(v):
     return kind, clause, int(at or 0)
 
 
-def judge(rep, behs, kind, need_failing_get=False):
+def judge(rep, behs, kind, need_failing_get=False, need_one_point=False):
+    """Replays the behaviours in one world and has TLC judge all recorded traces in one batch."""
     traces = []
     failing = 0
+    one_point = 0
     for i, b in enumerate(behs):
         traces.append((i, execute(b, kind)))
         failing += sum(1 for e in traces[-1][1] if e['ev'] == 'Get' and not e['stored'])
+        one_point += sum(1 for e in traces[-1][1] if e['ev'] == 'Get' and e.get('one_point'))
         case = {'world': kind, 'behaviour': b}
         if len(rep.samples) < 3:
             case = dict(case, observed=traces[-1][1])
         rep.add_case(case, nontrivial(b))
     if need_failing_get and not failing:
         raise core.MachineryError('no retrieval of a name that is not stored was executed in world ' + kind)
+    if need_one_point and not one_point:
+        raise core.MachineryError('no suppressed retrieval of a one-point slice was executed in world ' + kind)
     rep.extra['gets_of_names_not_stored'] = rep.extra.get('gets_of_names_not_stored', 0) + failing
+    rep.extra['suppressed_one_point_gets'] = rep.extra.get('suppressed_one_point_gets', 0) + one_point
     verdicts, st, tr = core.validate_traces('MC_Results_Trace', 'MC_Results_Trace.cfg', traces, tag='c16')
     rep.traces += len(traces)
     rep.extra['trace_validation_states'] = rep.extra.get('trace_validation_states', 0) + st
@@ -546,8 +593,7 @@ def judge(rep, behs, kind, need_failing_get=False):
             rep.add_drift(clause, case)
 
 
-def behaviours_of(rep, cfg, seen):
-    res = core.tlc('MC_Results', cfg, workers=1, tag='c16')
+def behaviours_of(rep, cfg, seen, res):
     if res.violated:
         raise core.MachineryError('spec property %s violated in %s' % (res.violated, cfg))
     rep.add_tlc(res, 'exhaustive ' + cfg)
@@ -562,55 +608,61 @@ def behaviours_of(rep, cfg, seen):
     return behs
 
 
+QUICK_CFGS = ['MC_Results_quick.cfg', 'MC_Results_quick2.cfg', 'MC_Results_ragged.cfg', 'MC_Results_miss.cfg',
+              'MC_Results_edge.cfg']
+THOROUGH_CFGS = ['MC_Results_thorough.cfg', 'MC_Results_thorough2.cfg', 'MC_Results_ragged_thorough.cfg',
+                 'MC_Results_miss_thorough.cfg', 'MC_Results_miss_thorough2.cfg', 'MC_Results_edge_thorough.cfg']
+
+
 def run(rep):
-    cfgs = ['MC_Results_quick.cfg', 'MC_Results_quick2.cfg', 'MC_Results_ragged.cfg', 'MC_Results_miss.cfg'] \
-        if rep.tier == 'quick' else \
-        ['MC_Results_quick.cfg', 'MC_Results_quick2.cfg', 'MC_Results_ragged.cfg', 'MC_Results_miss.cfg',
-         'MC_Results_thorough.cfg', 'MC_Results_thorough2.cfg', 'MC_Results_ragged_thorough.cfg',
-         'MC_Results_miss_thorough.cfg', 'MC_Results_miss_thorough2.cfg']
-    rep.rule = ('behaviours = all maximal call histories of the bounded Results instance emitted by TLC '
-                '(Get group x name x cutoff incl. names the group does not hold, MutateHeld index x {append,pop}, '
-                'SetSuppress, SetCutoff, RenderTable group x fmt, BaseCsv, Extend name; MaxHist calls; rectangular '
-                'and ragged initial stores, empty and filled step group); each is executed on '
-                'a real Model holding the known series (and, thorough tier, the quick- and miss-instance histories '
-                'also on a solved SIM model with a traced step, the ragged- and miss-instance histories on a Model '
-                'whose run was interrupted, plus the rendering done by that Model.main() itself); '
+    cfgs = QUICK_CFGS if rep.tier == 'quick' else QUICK_CFGS + THOROUGH_CFGS
+    rep.rule = ('behaviours = all maximal call histories of the bounded Results instances emitted by TLC '
+                '(Get group x name x cutoff incl. names the group does not hold and cutoff 0, MutateHeld index x '
+                '{append,pop}, SetSuppress, SetCutoff, RenderTable group x fmt, BaseCsv, Extend name; MaxHist calls; '
+                'rectangular and ragged initial stores, series of 1, 2, 3, 5 points, empty and filled step group); '
+                'each is executed on a real Model holding the known series (and, thorough tier, the quick-, miss- and '
+                'edge-instance histories also on a solved SIM model with a traced step, the ragged-, miss- and '
+                'edge-instance histories on a Model whose run was interrupted, the edge- and miss-instance histories '
+                'on a solver that was only initialised, plus the rendering done by Model.main() itself); '
                 'distinct = distinct (world, history) JSON; non-trivial = at least one read call and >= 2 calls')
     rep.exhaustive = True
-    rep.assumptions = ['stored series of length 3 or 5/3 ragged (known) / 9 (solved SIM model, MaxTime 8; two series '
-                       'tracked) / 5,5,3,3 (interrupted run; all four tracked)',
-                      'snapshots are deep copies of EquationSolver.TimeSeries taken through the dict interface',
-                      'TLC 1.8 / tla2tools; CommunityModules Json/IOUtils']
+    rep.assumptions = ['stored series of length 1, 2, 3 or 5/3 ragged (known) / 9 (solved SIM model, MaxTime 8; two '
+                       'series tracked; step group = 160 sweeps) / 5,5,3,3 (interrupted run; all tracked) / '
+                       '5,5,1,1,1 (initialised solver; all tracked)',
+                       'snapshots are deep copies of the three TimeSeriesHolders taken through the dict interface',
+                       'TLC 1.8 / tla2tools; CommunityModules Json/IOUtils']
+    # the bounded instances are independent TLC jobs: run them side by side
+    with concurrent.futures.ThreadPoolExecutor(max_workers=min(len(cfgs), 6)) as ex:
+        results = list(ex.map(lambda c: core.tlc('MC_Results', c, workers=1, tag='c16'), cfgs))
     seen = set()
-    first = None
-    ragged = []
-    miss = []
-    for cfg in cfgs:
-        behs = behaviours_of(rep, cfg, seen)
-        if first is None:
-            first = behs
-        if cfg in ('MC_Results_miss.cfg', 'MC_Results_miss_thorough.cfg'):
-            miss.extend(behs)       # these ask only for tracked or absent names: usable in every world
-        if 'ragged' in cfg:
-            if not any(c['ev'] == 'RenderTable' for b in behs for c in b['calls']) or \
-                    len(set(len(v) for v in behs[0]['store'].values())) < 2:
-                raise core.MachineryError('%s does not render a ragged store' % cfg)
-            ragged.extend(behs)
-        judge(rep, behs, 'known', need_failing_get='miss' in cfg)
+    by_cfg = {}
+    for cfg, res in zip(cfgs, results):
+        by_cfg[cfg] = behaviours_of(rep, cfg, seen, res)
+    for cfg, behs in by_cfg.items():
+        if 'ragged' in cfg and (not any(c['ev'] == 'RenderTable' for b in behs for c in b['calls']) or
+                                len(set(len(v) for v in behs[0]['store']['main'].values())) < 2):
+            raise core.MachineryError('%s does not render a ragged store' % cfg)
+        if 'miss' in cfg and not any(c['ev'] == 'Get' and c['name'] not in (b['store'][c['grp']] or {})
+                                     for b in behs for c in b['calls']):
+            raise core.MachineryError('%s never asks for a name that is not stored' % cfg)
+    everything = [b for cfg in cfgs for b in by_cfg[cfg]]
+    judge(rep, everything, 'known', need_failing_get=True, need_one_point=True)
     if rep.tier != 'quick':
         rnd = random.Random(rep.seed)
-        extra = list(first)
-        rnd.shuffle(extra)          # order only; all of them are replayed
-        judge(rep, extra, 'solved')
-        quick_miss = [b for b in miss if len(b['calls']) <= 3]      # all of MC_Results_miss.cfg ...
-        longer = [b for b in miss if len(b['calls']) > 3]
-        rnd.shuffle(longer)                                         # ... and a seeded sample of the longer ones
-        judge(rep, quick_miss + longer[:6000], 'solved', need_failing_get=True)
+        ragged = by_cfg['MC_Results_ragged.cfg'] + by_cfg['MC_Results_ragged_thorough.cfg']
+        # these ask only for tracked or absent names: usable in every world
+        quick_miss = by_cfg['MC_Results_miss.cfg']
+        longer = list(by_cfg['MC_Results_miss_thorough.cfg'])
+        rnd.shuffle(longer)                                         # a seeded sample of the longer ones
+        edge = by_cfg['MC_Results_edge.cfg'] + by_cfg['MC_Results_edge_thorough.cfg']
+        main_edge = [b for b in edge if all(c['grp'] != 'step' for c in b['calls'] if c['ev'] == 'Get')]
+        judge(rep, by_cfg['MC_Results_quick.cfg'] + quick_miss + longer[:6000] + main_edge, 'solved',
+              need_failing_get=True, need_one_point=True)
         special = {'special': MAIN_FINALLY, 'varlist': ['x', 'y', 't'],
                    'calls': [{'ev': 'RenderTable', 'grp': 'main', 'name': '', 'c': NOCUT, 'i': 0, 'op': '',
                               'b': False, 'fmt': '%.5g'}]}
-        judge(rep, [special] + ragged, 'interrupted')
-        judge(rep, [b for b in miss if len(b['calls']) <= 3], 'interrupted', need_failing_get=True)
+        judge(rep, [special] + ragged + quick_miss + edge, 'interrupted', need_failing_get=True, need_one_point=True)
+        judge(rep, edge + quick_miss, 'initialised', need_failing_get=True, need_one_point=True)
 
 
 def replay(path):
